@@ -282,6 +282,12 @@ func runWorker(bin string, id string, args []string, procs int, stallLimit time.
 	if probeFile != "" {
 		full = append(full, "-cat", probeFile)
 	}
+	if freeRun {
+		full = append(full, "-free")
+		if procs > 0 && procs < 8 {
+			procs = 8 // tasks really run in parallel in this mode
+		}
+	}
 	if procs > 0 {
 		full = append(full, "-procs", strconv.Itoa(procs))
 	}
@@ -406,6 +412,7 @@ type Plan struct {
 	Kind       string                   `json:"kind"`
 	Mode       string                   `json:"mode"`
 	Pick       int                      `json:"pick"`
+	Free       bool                     `json:"free,omitempty"`
 	ColdFirst  bool                     `json:"cold_first,omitempty"`
 	Prelude    []uint64                 `json:"prelude,omitempty"`
 	Tasks      [][]json.RawMessage      `json:"tasks"`
@@ -433,6 +440,16 @@ var probeFile string
 // channels, timers). Oracles stay sound; exact replay is then not promised:
 // replays are retried and the determinism self-test only reports.
 var inexact bool
+
+// freeRun: the library starts goroutines or blocks on channels / timers: workers
+// run in free-running mode (vsimrt.Config.Free).
+var freeRun bool
+
+func isBlockingKind(k string) bool {
+	return k == "go" || strings.HasPrefix(k, "chan-") || strings.HasPrefix(k, "select") || k == "range-chan" ||
+		strings.HasSuffix(k, ".Wait") || k == "time.Sleep" || k == "time.After" || k == "time.NewTimer" || k == "time.Tick" ||
+		k == "time.NewTicker" || k == "time.AfterFunc"
+}
 
 // replayUntil replays a plan; on trees flagged inexact it retries (fresh process
 // each time) until the key shows up or the attempts are used up.
@@ -787,12 +804,22 @@ func main() {
 	bin, ii, buildS := buildWorker()
 	digest := treeDigest(repoDir)
 	inexact = len(ii.Uncontrolled) > 0
+	for _, u := range ii.Uncontrolled {
+		if isBlockingKind(u.Kind) {
+			freeRun = true
+		}
+	}
 
 	if *replay != "" {
 		os.Exit(doReplay(bin, *replay, digest))
 	}
 
 	fmt.Printf("verifctl c19 tier=%s VERIF_SEED=%d tree=%s build=%.1fs\n", *tier, seed, digest, buildS)
+	if freeRun {
+		fmt.Printf("note: the library starts goroutines or blocks on channels/timers (%d such sites, e.g. %s@%s); there is no seam for those, so tasks run "+
+			"in free-running mode: real parallel goroutines under the race detector, results still compared with the sequential run, schedules not replayable.\n",
+			len(ii.Uncontrolled), ii.Uncontrolled[0].Kind, ii.Uncontrolled[0].Pos)
+	}
 	// probe the corpus once; every worker then starts cold
 	pf := filepath.Join(scratch, "probe.json")
 	if out, err := run(scratch, os.Environ(), bin, "-probe", pf); err != nil {
